@@ -103,6 +103,7 @@ type op struct {
 	Op string // deliver status flush
 	K  string
 	V  string
+	B  bool // deliver only: same OnUpdates batch as the preceding deliver
 }
 
 type drv struct {
@@ -132,11 +133,20 @@ func (d *drv) runTrace(t int, u *Universe, ops []op) {
 	for i, o := range ops {
 		switch o.Op {
 		case "deliver":
-			key, val := freshValue(u.Name, o.K, o.V)
-			old, had := delivered[o.K]
-			d.log.Emit("deliver", map[string]any{"k": o.K, "v": o.V})
-			main.vf.OnUpdates([]api.Update{update(key, val, had && old != "nil")})
-			delivered[o.K] = o.V
+			// one OnUpdates call per batch: this deliver plus the following ones marked B
+			batch := []api.Update{}
+			if o.B && i > 0 && ops[i-1].Op == "deliver" {
+				continue // already sent with the batch that started earlier
+			}
+			for j := i; j < len(ops) && ops[j].Op == "deliver" && (j == i || ops[j].B); j++ {
+				b := ops[j]
+				key, val := freshValue(u.Name, b.K, b.V)
+				old, had := delivered[b.K]
+				d.log.Emit("deliver", map[string]any{"k": b.K, "v": b.V})
+				batch = append(batch, update(key, val, had && old != "nil"))
+				delivered[b.K] = b.V
+			}
+			main.vf.OnUpdates(batch)
 			dirty = true
 		case "status":
 			d.log.Emit("status", map[string]any{"s": o.V})
@@ -458,6 +468,28 @@ func windowHistory(u *Universe, rnd *rand.Rand) []op {
 		ops = append(ops, op{Op: "flush"})
 	}
 	obj, act := g[0], g[1]
+	if rnd.Intn(20) < 7 {
+		// walk history: for every variant of the object, the activity key steps through all its variants in catalogue
+		// order with a flush after each step (neighbouring variants differ in little, e.g. only in an appended profile):
+		// every (object variant, consecutive activity-key transition) pair is judged
+		for _, k := range g[2:] {
+			ops = append(ops, val(k))
+		}
+		for _, ov := range u.key(obj).Variants {
+			ops = append(ops, op{Op: "deliver", K: obj, V: ov.Name})
+			for _, av := range u.key(act).Variants {
+				ops = append(ops, op{Op: "deliver", K: act, V: av.Name})
+				flush()
+			}
+			if rnd.Intn(2) == 0 {
+				ops = append(ops, gone(act))
+			}
+		}
+		if !insync {
+			ops = append(ops, op{Op: "status", V: "in-sync"}, op{Op: "flush"})
+		}
+		return ops
+	}
 	rounds := 3 + rnd.Intn(4)
 	for r := 0; r < rounds; r++ {
 		// (A) a window that (re)creates the object and something that may activate it, flushed: "sent"
@@ -485,6 +517,23 @@ func windowHistory(u *Universe, rnd *rand.Rand) []op {
 			ops = append(ops, gone(act), val(act))
 		case 6: // object deleted and re-created in one window
 			ops = append(ops, gone(obj), val(obj))
+		case 9: // the activity key steps through its variants in catalogue order, flushing in between
+			// (neighbouring variants differ in little, e.g. only in an appended profile)
+			for _, v := range u.key(act).Variants {
+				ops = append(ops, op{Op: "deliver", K: act, V: v.Name})
+				cur[act] = v.Name
+				if rnd.Intn(4) > 0 {
+					flush()
+				}
+			}
+		case 8: // every key of the group replaced by its invalid variants (where it has some), typically one batch
+			for _, kid := range g {
+				for _, v := range u.key(kid).Variants {
+					if v.Invalid && rnd.Intn(3) > 0 {
+						ops = append(ops, op{Op: "deliver", K: kid, V: v.Name, B: true})
+					}
+				}
+			}
 		default:
 			n := []int{2, 2, 3, 3, 4}[rnd.Intn(5)]
 			for i := 0; i < n; i++ {
@@ -495,6 +544,16 @@ func windowHistory(u *Universe, rnd *rand.Rand) []op {
 	}
 	if !insync {
 		ops = append(ops, op{Op: "status", V: "in-sync"}, op{Op: "flush"})
+	}
+	return ops
+}
+
+// batchify marks (seeded) some deliveries as belonging to the same OnUpdates call as the preceding delivery
+func batchify(ops []op, rnd *rand.Rand) []op {
+	for i := 1; i < len(ops); i++ {
+		if ops[i].Op == "deliver" && ops[i-1].Op == "deliver" && rnd.Intn(10) < 4 {
+			ops[i].B = true
+		}
 	}
 	return ops
 }
@@ -645,7 +704,7 @@ func main() {
 		t++
 		u := pickUniverse(unis, env.Seed, i)
 		rnd := rand.New(rand.NewSource(env.Seed*7919 + int64(i)))
-		ops := bindBehaviour(u, b, rnd)
+		ops := batchify(bindBehaviour(u, b, rnd), rnd)
 		if async {
 			d.runAsync(t, u, ops)
 		} else {
@@ -666,6 +725,7 @@ func main() {
 		if w := rnd.Intn(4); !async && wm != "off" && ((wm == "most" && w != 0) || (wm != "most" && w < 2)) {
 			ops = windowHistory(u, rnd)
 		}
+		ops = batchify(ops, rnd)
 		if async {
 			d.runAsync(t, u, ops)
 		} else {
